@@ -4,7 +4,7 @@
     unit, list, prod, sumbool, sumor). *)
 Require Extraction.
 Require Import ExtrOcamlBasic.
-From Age Require Import Base Base64 Format FormatIO IO Stream Armor Bech32 Prims Recipients Age KeyFile Plugin SshEnc Cli Crypto CliFlags StreamNonceFacts.
+From Age Require Import Base Base64 Format FormatIO IO Stream Armor Bech32 Prims Recipients Age KeyFile Plugin SshEnc Cli Crypto CliFlags StreamNonceFacts ArmorFast.
 Extraction Blacklist List String Int Bytes.
 Extraction "model.ml"
   Base.n2b Base.b2n Base.split_on Base.join_on Base.dec_of_N
@@ -13,7 +13,7 @@ Extraction "model.ml"
   FormatIO.header_writes
   IO.src_read IO.read_full IO.sink_write IO.empty_sink IO.plain_src
   Stream.encrypt_spec Stream.decrypt_spec Stream.w_run Stream.w_init Stream.w_write Stream.w_close StreamNonceFacts.lwrite StreamNonceFacts.w_ops Stream.run_reader Stream.nonce_of
-  Armor.armor_bytes Armor.armor_run Armor.aw_run Armor.aw_init Armor.dearmor_from Armor.dearmor Armor.normalize
+  Armor.armor_bytes Armor.armor_run Armor.aw_run Armor.aw_init Armor.dearmor_from ArmorFast.dearmor_from_fast Armor.dearmor Armor.normalize
   Bech32.encode Bech32.decode Bech32.parse_recipient Bech32.recipient_string
   Bech32.parse_identity Bech32.identity_string
   Bech32.encode_plugin_identity Bech32.parse_plugin_identity
